@@ -36,6 +36,7 @@ class Sched:
         self.free = False
         self.names = {}
         self.timeouts = 0
+        self.quiet = set()      # cells no thread of the scenario writes: their reads are no scheduling points
 
     def name(self):
         return self.names.get(threading.get_ident())
@@ -45,6 +46,8 @@ class Sched:
             return
         th = self.name()
         if th is None:
+            return
+        if self.mode == 'replay' and cell in self.quiet:
             return
         i = self.cnt.get(th, 0)
         self.cnt[th] = i + 1
@@ -138,6 +141,62 @@ class MutProxy:
         return self._call('__contains__', k)
 
 
+def _digest(t):
+    try:
+        return repr(t) if len(t) <= 64 else 'len=%d' % len(t)
+    except Exception:
+        return '<unrepresentable>'
+
+
+def _rec_class(base, reads):
+    """a real dict/list/set subclass (passes isinstance checks and C-level uses) whose Python-level accesses are events on one SHARED cell"""
+    ns = {'__slots__': ()}
+
+    def mk(name, write):
+        orig = getattr(base, name)
+        if write:
+            def m(self, *a, **kw):
+                cell = REC_CELLS.get(id(self))
+                if cell is None:
+                    return orig(self, *a, **kw)
+                S.point('W', cell, 'mutating:' + name)
+                r = orig(self, *a, **kw)
+                ev = S.ev.get(S.name())
+                if S.mode == 'record' and ev:
+                    ev[-1] = ('W', cell, _digest_raw(base, self))
+                return r
+        else:
+            def m(self, *a, **kw):
+                cell = REC_CELLS.get(id(self))
+                if cell is not None:
+                    S.point('R', cell, _digest_raw(base, self))
+                return orig(self, *a, **kw)
+        m.__name__ = name
+        return m
+    for name in reads:
+        if hasattr(base, name):
+            ns[name] = mk(name, False)
+    for name in _MUTATORS:
+        if hasattr(base, name):
+            ns[name] = mk(name, True)
+    return type('Rec' + base.__name__.capitalize(), (base,), ns)
+
+
+def _digest_raw(base, obj):
+    try:
+        n = base.__len__(obj)
+        return base.__repr__(obj) if n <= 64 else 'len=%d' % n
+    except Exception:
+        return '<unrepresentable>'
+
+
+REC_CELLS = {}
+_READS = ('__getitem__', 'get', '__contains__', '__iter__', '__len__', 'keys', 'values', 'items', 'copy', 'index', 'count', '__eq__', '__bool__')
+RecDict = _rec_class(dict, _READS)
+RecList = _rec_class(list, _READS)
+RecSet = _rec_class(set, _READS)
+
+
 class Proxy:
     """records attribute reads/writes on the wrapped object"""
 
@@ -223,7 +282,38 @@ def install():
     cur = errors._api_entered
     errors._api_entered = Proxy('api', cur)
     desc.append('errors._api_entered (%s)' % type(cur).__name__)
+    desc.extend(wrap_containers())
     return desc
+
+
+def wrap_containers():
+    """every plain dict/list/set held at module or class level of the package becomes a recording subclass instance:
+    a build that writes one of them (e.g. a memo table moved from the instance to the class) produces events on a shared cell"""
+    import awesomeyaml
+    import pkgutil
+    out = []
+    kinds = {dict: RecDict, list: RecList, set: RecSet}
+    for m in pkgutil.walk_packages(awesomeyaml.__path__, 'awesomeyaml.'):
+        try:
+            mod = importlib.import_module(m.name)
+        except Exception:
+            continue
+        holders = [(mod, m.name)]
+        for k, v in list(vars(mod).items()):
+            if isinstance(v, type) and v.__module__ == m.name:
+                holders.append((v, '%s.%s' % (m.name, v.__name__)))
+        for holder, hname in holders:
+            for k, v in list(vars(holder).items()):
+                if k.startswith('__') or type(v) not in kinds:
+                    continue
+                try:
+                    rec = kinds[type(v)](v)
+                    setattr(holder, k, rec)
+                except (TypeError, AttributeError):
+                    continue
+                REC_CELLS[id(rec)] = ('container', '%s.%s' % (hname, k), '*')
+                out.append('%s.%s (%s, recording subclass)' % (hname, k, type(v).__name__))
+    return out
 
 
 def shared_state_inventory():
@@ -274,17 +364,29 @@ def run_body(name, spec, results):
 
 
 def record_sequential(threads):
+    # warm-up (unrecorded): lazily filled package caches (scalar type tables) are full before anything is recorded
+    S.mode = 'off'
+    S.names = {}
+    warm = {}
+    for name, spec in threads:
+        th = threading.Thread(target=run_body, args=(name, spec, warm))
+        th.start()
+        th.join()
     S.mode = 'record'
     S.ev = {}
     S.cnt = {}
     S.names = {}
+    S.quiet = set()
     res = {}
     for name, spec in threads:
         th = threading.Thread(target=run_body, args=(name, spec, res))
         th.start()
         th.join()
     S.mode = 'off'
-    return res, {k: list(v) for k, v in S.ev.items()}
+    written = {e[1] for evs in S.ev.values() for e in evs if e[0] == 'W'}
+    S.quiet = {e[1] for evs in S.ev.values() for e in evs} - written
+    # events on quiet cells are dropped (and not counted during replays): no schedule can make such a read observe a write
+    return res, {k: [e for e in v if e[1] not in S.quiet] for k, v in S.ev.items()}
 
 
 def replay(threads, order):
@@ -305,7 +407,7 @@ def replay(threads, order):
     return res
 
 
-def solve_scenario(threads, max_candidates=25):
+def solve_scenario(threads, max_candidates=400):
     """returns dict(verdict='unsat'|'violation'|'benign_exhausted', ...)"""
     import z3
     seq, E = record_sequential(threads)
@@ -323,32 +425,41 @@ def solve_scenario(threads, max_candidates=25):
     def writes(cell):
         return [(th, i, e) for th, i, e in allev if e[0] == 'W' and e[1] == cell]
 
+    def observes(th, i, e, t2, j):
+        """the read (th, i) returns what write (t2, j) stored: the write is the latest one to the cell before the read"""
+        c = [ts[(t2, j)] < ts[(th, i)]]
+        for t3, k, w3 in writes(e[1]):
+            if (t3, k) != (t2, j):
+                c.append(z3.Not(z3.And(ts[(t2, j)] < ts[(t3, k)], ts[(t3, k)] < ts[(th, i)])))
+        return z3.And(c)
+
+    def differing(th, i, e):
+        return [(t2, j) for t2, j, w in writes(e[1]) if t2 != th and w[2] != e[2]]
+
     def sees_recorded(th, i, e):
-        cell = e[1]
-        own = [j for j in range(i) if E[th][j][0] == 'W' and E[th][j][1] == cell]
-        conds = []
-        for t2, j, w in writes(cell):
-            if t2 == th or w[2] == e[2]:
-                continue
-            c = ts[(t2, j)] > ts[(th, i)]
-            if own:
-                c = z3.Or(c, ts[(t2, j)] < ts[(th, own[-1])])
-            conds.append(c)
-        return z3.And(conds) if conds else z3.BoolVal(True)
+        return z3.Not(z3.Or([observes(th, i, e, t2, j) for t2, j in differing(th, i, e)] or [z3.BoolVal(False)]))
 
     reads = [(th, i, e) for th, i, e in allev if e[0] == 'R']
-    shared_reads = [(th, i, e) for th, i, e in reads if any(t2 != th for t2, j, w in writes(e[1]))]
+    shared_reads = [(th, i, e) for th, i, e in reads if differing(th, i, e)]
     stats['reads'] = len(reads)
     stats['reads_with_foreign_writes'] = len(shared_reads)
     if not shared_reads:
         # no read can ever observe another thread's write: trivially unsat, still discharged by the solver
         s.add(z3.BoolVal(False))
-    dv = []
-    for k, (th, i, e) in enumerate(shared_reads):
-        before = [z3.Implies(ts[(t2, j)] < ts[(th, i)], sees_recorded(t2, j, e2)) for t2, j, e2 in shared_reads if (t2, j) != (th, i)]
-        b = z3.Bool('div_%d' % k)
-        s.add(b == z3.And(z3.Not(sees_recorded(th, i, e)), *before))
-        dv.append(b)
+    # one divergence variable per (read, foreign write) pair: the read is the FIRST one (in time) that returns something else
+    # than when its thread ran alone, and it returns what that write stored
+    rec = {(th, i): z3.Bool('rec_%s_%d' % (th, i)) for th, i, e in shared_reads}
+    for th, i, e in shared_reads:
+        s.add(rec[(th, i)] == sees_recorded(th, i, e))
+    dv, dv_info = [], []
+    for th, i, e in shared_reads:
+        before = [z3.Implies(ts[(t2, j)] < ts[(th, i)], rec[(t2, j)]) for t2, j, e2 in shared_reads if (t2, j) != (th, i)]
+        for t2, j in differing(th, i, e):
+            b = z3.Bool('div_%d' % len(dv))
+            s.add(b == z3.And(observes(th, i, e, t2, j), *before))
+            dv.append(b)
+            dv_info.append(((th, i, e), (t2, j, E[t2][j])))
+    stats['read_write_pairs'] = len(dv)
     if dv:
         s.add(z3.Or(dv))
     tries = 0
@@ -376,7 +487,7 @@ def solve_scenario(threads, max_candidates=25):
                     else:
                         diff[name] = (a if not isinstance(a, list) else a[:2], b_ if not isinstance(b_, list) else b_[:2])
             return {'verdict': 'violation', 'stats': stats, 'seq': seq, 'schedule': order,
-                    'divergent_reads': [list(map(str, shared_reads[k])) for k in which][:3], 'diff': diff}
+                    'divergent_reads': [[str(x) for x in dv_info[k]] for k in which][:3], 'diff': diff}
         for k in which:
             s.add(z3.Not(dv[k]))
         tries += 1
